@@ -18,8 +18,8 @@ EXTENDS Naturals, Sequences, FiniteSets, TLC
 
 CONSTANTS MaxStages, Deviations
 
-Kinds == {"proc", "alias"}
-Faults == {"none", "redirect_unopenable", "not_found", "alias_raises", "consumer_exits_early", "input_missing"}
+Kinds == {"proc", "alias", "ualias"}   \* ualias: a callable alias marked unthreadable - runs in the shell's own thread, single stage only
+Faults == {"none", "redirect_unopenable", "redirect_conflict", "not_found", "alias_raises", "consumer_exits_early", "input_missing"}
 
 VARIABLES shape,      \* [n, kinds, redirect (stage with an output redirect or 0), captured, bg (trailing &), infile (stage 1 reads `< file`), fault, at (stage the fault hits)]
           pc,         \* "idle" | "build" | "wire" | "start" | "drain" | "close" | "bgrelease" | "bgwait" | "done"
@@ -34,6 +34,8 @@ Shapes == UNION {[n : {n}, kinds : [1..n -> Kinds], redirect : 0..n, captured : 
 \* the fault must make sense for the shape
 Sensible(s) ==
   /\ (s.fault = "redirect_unopenable" => s.redirect = s.at)
+  /\ (s.fault = "redirect_conflict" => s.redirect = 0 /\ s.at = s.n)   \* refused while the specs are built
+  /\ ((\E k \in 1..s.n : s.kinds[k] = "ualias") => s.n = 1 /\ ~s.bg)
   /\ (s.fault = "alias_raises" => s.kinds[s.at] = "alias")
   /\ (s.fault = "not_found" => s.kinds[s.at] = "proc")
   /\ (s.fault = "consumer_exits_early" => s.n >= 2 /\ s.at = s.n)
@@ -45,15 +47,16 @@ Init == shape = [n |-> 1, kinds |-> <<"proc">>, redirect |-> 0, captured |-> FAL
         /\ pc = "idle" /\ i = 0 /\ owned = {} /\ handlers = "original" /\ failed = FALSE /\ res = [clean |-> TRUE, dev |-> ""]
 
 When(S) == IF pc = "idle" THEN S ELSE {}
-Choose == \E s \in When(Shapes) : Sensible(s) /\ shape' = s /\ pc' = "build" /\ i' = 1
-                                  /\ UNCHANGED <<owned, handlers, failed, res>>
+Choose == \E n \in When(1..MaxStages) : \E kinds \in [1..n -> Kinds], fault \in Faults, at \in 1..n, redirect \in 0..n, captured \in BOOLEAN, bg \in BOOLEAN, infile \in BOOLEAN :
+            LET s == [n |-> n, kinds |-> kinds, redirect |-> redirect, captured |-> captured, bg |-> bg, infile |-> infile, fault |-> fault, at |-> at] IN
+              Sensible(s) /\ shape' = s /\ pc' = "build" /\ i' = 1 /\ UNCHANGED <<owned, handlers, failed, res>>
 
 \* everything the specs built so far own is closed (cmds_to_specs: except BaseException: spec.close())
 ReleaseAll == owned' = {}
 
 Build == /\ pc = "build"
          /\ IF i > shape.n THEN pc' = "wire" /\ i' = 1 /\ UNCHANGED <<owned, failed>>
-            ELSE IF shape.fault \in {"redirect_unopenable", "input_missing"} /\ shape.at = i
+            ELSE IF shape.fault \in {"redirect_unopenable", "redirect_conflict", "input_missing"} /\ shape.at = i
                    THEN \* opening the target raises: the specs built so far are closed, nothing was started
                         /\ failed' = TRUE /\ pc' = "done" /\ i' = i
                         /\ \/ ReleaseAll
@@ -81,7 +84,7 @@ Start == /\ pc = "start"
                         /\ failed' = TRUE /\ pc' = "done" /\ i' = i /\ UNCHANGED handlers
                         /\ \/ ReleaseAll
                            \/ "Dev_NotFoundLeaksEarlierStages" \in Deviations /\ i > 1 /\ UNCHANGED owned
-                   ELSE /\ owned' = owned \cup {<<IF shape.kinds[i] = "proc" THEN "child" ELSE "thread", i>>}
+                   ELSE /\ owned' = owned \cup (IF shape.kinds[i] = "ualias" THEN {} ELSE {<<IF shape.kinds[i] = "proc" THEN "child" ELSE "thread", i>>})
                                           \cup (IF i = shape.n /\ shape.captured THEN {<<"pump", i>>} ELSE {})
                         /\ handlers' = IF i = shape.n /\ ~shape.bg THEN "swapped" ELSE handlers
                         /\ i' = i + 1 /\ UNCHANGED <<pc, failed>>
@@ -154,4 +157,10 @@ LeavesNothing == Quiescent => owned = {} /\ handlers = "original"
 NoWriterAfterDrain == pc = "close" => \A k \in 1..shape.n : <<"pipeW", k>> \notin owned
 OnlyRunningThingsWhileDraining == pc = "drain" => \A r \in owned : r[1] \in {"child", "thread", "pump", "capR", "capW", "pipeR", "pipeW", "file", "infile"}
 Terminates == <>(pc = "done")
+\* the same without a liveness tableau (which costs 20 s on this graph: the initial state has thousands of
+\* successors): no state before "done" is stuck, and every step increases a bounded rank
+PhaseRank == [idle |-> 0, build |-> 1, wire |-> 2, start |-> 3, drain |-> 4, bgrelease |-> 4, close |-> 5, bgwait |-> 5, done |-> 6]
+Rank == PhaseRank[pc] * 8 + i
+NoStuck == pc # "done" => ENABLED Next
+Progress == [][Rank' > Rank]_vars
 =============================================================================
